@@ -152,7 +152,16 @@ def run(run):
         run.bad("C20.Y4", "server-shared-state/%s" % short(bad_ty[0]), where(prog.bodies[bad_ty[0]]), "%s uses %s: handlers may share mutable state" % bad_ty)
     else:
         run.ok("C20.Y4", "no lock / atomic / State / Extension type in the server crate (%d bodies)" % len(bodies), f)
+    y5(run)
+    run.assume("axum 0.6 default request body limit (2 MiB) applies to the Bytes extractor when no layer changes it")
+    run.assume("a panic inside a handler is confined to its tokio task (framework behaviour, not decided)")
+
+
+def y5(run):
     # ---------------- Y5 no exit/abort from handlers
+    prog = run.prog
+    bodies = [p for p in prog.bodies if p.startswith(CR)]
+    f = "crates/svgbob_server/src/main.rs"
     roots = [p for p in bodies if p.startswith(CR + "hello") or p.startswith(CR + "text_to_svgbob")]
     reach = prog.reachable(roots)
     n = 0
@@ -166,9 +175,10 @@ def run(run):
                 run.bad("C20.Y5", "handler-exits/%s" % short(p), where(t), "%s calls %s: a request can stop the server (reached via %s)" % (
                     p, nm, " -> ".join(short(x) for x in prog.path_to(p)[-4:])))
     run.ok("C20.Y5", "no process::exit/abort among %d call sites reachable from the handlers" % n, f)
-    run.floor("C20.Y5", "reachable_call_sites", n, 2000)
-    run.assume("axum 0.6 default request body limit (2 MiB) applies to the Bytes extractor when no layer changes it")
-    run.assume("a panic inside a handler is confined to its tokio task (framework behaviour, not decided)")
+    if run.repo == "/repo" or "fixtures" not in run.repo:
+        run.floor("C20.Y5", "reachable_call_sites", n, 2000)
 
 
 run_flow = run
+fixture = y5
+FIXTURE_EXPECT = ["handler-exits/"]
